@@ -203,6 +203,110 @@ func c14PushRun(c *Ctx, cs c14PushCase, count bool) {
 	}
 }
 
+// c14WritingPolicy: a push policy that WRITES to the stack it guards before it answers - a capped "most recent
+// last" set that first takes out an older copy of the offered value, and a window that drops its oldest
+// element when the offered one would otherwise fill it. Room that the policy frees while a batch runs is
+// room: every value that finds room is offered, in order, and stored. (No mutex: the closure runs inside Push.)
+func c14WritingPolicy(c *Ctx) int {
+	n := 0
+	type job struct {
+		kind           string
+		capk, pre, var_ int
+		batch          []int
+	}
+	var jobs []job
+	var gen func(prefix []int, left int, emit func([]int))
+	gen = func(prefix []int, left int, emit func([]int)) {
+		if len(prefix) > 0 {
+			emit(append([]int{}, prefix...))
+		}
+		if left == 0 {
+			return
+		}
+		for v := 0; v < 5; v++ {
+			gen(append(prefix, v), left-1, emit)
+		}
+	}
+	maxBatch := 3
+	if !c.Quick() {
+		maxBatch = 4
+	}
+	for ki, kind := range kindNames {
+		for capk := 2; capk <= 4; capk++ {
+			for pre := 0; pre <= capk; pre++ {
+				for variant := 0; variant < 2; variant++ {
+					if c.Quick() && (ki+capk+variant)%2 == 1 {
+						continue
+					}
+					gen(nil, maxBatch, func(b []int) { jobs = append(jobs, job{kind, capk, pre, variant, b}) })
+				}
+			}
+		}
+	}
+	parallelFor(len(jobs), func(i int) {
+		j := jobs[i]
+		s := newStackKind(j.kind, j.capk)
+		var content []any
+		for q := 0; q < j.pre; q++ {
+			content = append(content, fmt.Sprintf("v%d", q))
+		}
+		s.Push(content...)
+		var log []any
+		s.SetPushPolicy(func(x ...any) error {
+			log = append(log, x[0])
+			if j.var_ == 0 {
+				for q := 0; q < s.Len(); q++ {
+					if v, _ := s.Index(q); v == x[0] {
+						s.Remove(q)
+						break
+					}
+				}
+			} else if s.Len() >= j.capk-1 && s.Len() > 0 {
+				s.Remove(0)
+			}
+			return nil
+		})
+		var batch []any
+		for _, v := range j.batch {
+			batch = append(batch, fmt.Sprintf("v%d", v))
+		}
+		desc := fmt.Sprintf("%s capacity %d holding %s, push policy %s: Push%s", j.kind, j.capk, showList(content), map[int]string{0: "takes out an older copy of the offered value, then approves", 1: "drops the oldest element when the offered one would fill the stack, then approves"}[j.var_], showList(batch))
+		c.Transitions.Add(1)
+		if p := noPanic(func() { s.Push(batch...) }); p != "" {
+			c.Violation("writing-policy:panic", desc+" panicked: "+p, nil, len(batch))
+			return
+		}
+		var wantLog []any
+		for _, v := range batch {
+			if len(content) >= j.capk {
+				continue // no room: not consulted
+			}
+			wantLog = append(wantLog, v)
+			if j.var_ == 0 {
+				for q := range content {
+					if content[q] == v {
+						content = append(content[:q:q], content[q+1:]...)
+						break
+					}
+				}
+			} else if len(content) >= j.capk-1 && len(content) > 0 {
+				content = content[1:]
+			}
+			content = append(content, v)
+		}
+		if !sameList(log, wantLog) {
+			c.Violation("writing-policy:call-log", fmt.Sprintf("%s: the policy was consulted with %s, want %s (every value that finds room when its turn comes)", desc, showList(log), showList(wantLog)), nil, len(batch))
+		} else if got := contents(s); !sameList(got, content) {
+			c.Violation("writing-policy:content", fmt.Sprintf("%s: content %s want %s", desc, showList(got), showList(content)), nil, len(batch))
+		}
+		if len(wantLog) == len(batch) && len(batch) > j.capk-j.pre {
+			c.Nontrivial(desc)
+		}
+	})
+	n = len(jobs)
+	return n
+}
+
 func c14PushCases(c *Ctx) []c14PushCase {
 	var out []c14PushCase
 	kinds := []string{"AND", "BASIC"}
@@ -531,6 +635,16 @@ func c14PolMachine(c *Ctx, kind string) *Machine[*polInst] {
 						bad("cond-isequal", "built-in IsEqual accepts a different Condition after the closure was removed")
 					}
 				}
+				if in.eqf == 0 {
+					// the comparand's own closures are the comparand's business: without a closure on the receiver the
+					// built-in comparison decides, whatever the other side has installed
+					if e := in.cd.IsEqual(mkCond().SetEqualityPolicy(func(any, any) error { return errE })); e != nil {
+						bad("cond-isequal-foreign-closure", "IsEqual(equal Condition that carries a rejecting equality closure of its own)=%v, want nil: the receiver has no closure", e)
+					}
+					if e := in.cd.IsEqual(stackage.Cond("other!", stackage.Eq, "val").SetEqualityPolicy(func(any, any) error { return nil })); e == nil {
+						bad("cond-isequal-foreign-closure", "IsEqual(different Condition that carries an accept-everything equality closure of its own)=nil: the receiver has no closure, the built-in comparison decides")
+					}
+				}
 				if msg := c14Nested(in.cd, mkCond(), stackage.Cond("other!", stackage.Eq, "val"), in.eqf); msg != "" {
 					bad("cond-isequal-nested", "%s", msg)
 				}
@@ -612,6 +726,19 @@ func c14PolMachine(c *Ctx, kind string) *Machine[*polInst] {
 				}
 				if got := s.IsEqual(self); got != wantEq {
 					bad("isequal-self", "IsEqual(%s)=%v want %v (equality closure state %d)", what, got, wantEq, in.eqf)
+				}
+			}
+			if in.eqf == 0 && in.extra == 0 {
+				twinRej := newStackKind(in.kind).Push("a", stackage.Cond("k", stackage.Eq, "v"), "b").SetEqualityPolicy(func(any, any) error { return errE })
+				if deco {
+					twinRej = decorate(newStackKind(in.kind)).SetMutex().Push("a", stackage.Cond("k", stackage.Eq, "v"), "b").SetEqualityPolicy(func(any, any) error { return errE })
+				}
+				if e := s.IsEqual(twinRej); e != nil {
+					bad("isequal-foreign-closure", "IsEqual(equal stack that carries a rejecting equality closure of its own)=%v, want nil: the receiver has no closure", e)
+				}
+				otherAcc := newStackKind(in.kind).Push("a", "something else").SetEqualityPolicy(func(any, any) error { return nil })
+				if e := s.IsEqual(otherAcc); e == nil {
+					bad("isequal-foreign-closure", "IsEqual(different stack that carries an accept-everything equality closure of its own)=nil: the receiver has no closure, the built-in comparison decides")
 				}
 			}
 			if in.eqf == 0 && in.extra > 0 {
@@ -730,6 +857,11 @@ func init() {
 		cases := c14PushCases(c)
 		parallelFor(len(cases), func(i int) { c14PushRun(c, cases[i], true) })
 		c.States.Add(int64(len(cases)))
+		nw := c14WritingPolicy(c)
+		c.States.Add(int64(nw))
+		c.Traces.Add(int64(nw))
+		c.Evals.Add(int64(nw))
+		c.Bound["batches_against_a_policy_that_writes_to_its_own_stack"] = nw
 		c.Exhaustive = true
 		kinds := append([]string{}, kindNames...)
 		kinds = append(kinds, "CONDITION", "CONDITION-invalid", "CONDITION-no-operator", "CONDITION-no-expression", "CONDITION-init-only", "BASIC+decorated", "AND+decorated", "LIST+decorated")
